@@ -1983,7 +1983,7 @@ pub fn gen_c18(rng: &mut Rng, tier: &str, out: &mut Out) {
         out.d(format!("UUID {}", hx(&w)));
     }
     for base in [&b"a -> b:"[..], b"", b"x", b"a -> b:\n    void m() -> a"] {
-        for suf in [&b""[..], b"\n", b"\r\n", b"\r", b" ", b"\n\n", b"\x00", b"\t"] {
+        for suf in [&b""[..], b"\n", b"\r\n", b"\r", b" ", b"\n\n", b"\x00", b"\t", b"\r\n\x1a", b"\n\x1a", b"\x1a", b"\n\x00", b"\r\n\x00", b"\n\x00\x00", b"\x04", b"\n\xef\xbb\xbf"] {
             let mut v = base.to_vec();
             v.extend_from_slice(suf);
             out.d(format!("UUID {}", hx(&v)));
